@@ -104,9 +104,9 @@ def judge_all(prop, cfg, lines, impl, model, incidents):
         fs = spec["judge"](ctx, i, op, a, mi, ms, reason)
         if op[0] in spec["probes"]:
             evaluations += 1
-            nt = nontrivial or (op[0] in ("dec", "decat", "decq", "deca", "decg") and len(op) > 1 and len(op[-1]) >= 16) or op[0] in ("fx", "sweep", "sdec", "senc", "serve", "cli", "lsn", "tls", "tlsq", "ctcp")
+            nt = nontrivial or (op[0] in ("dec", "decat", "decq", "deca", "decg") and len(op) > 1 and len(op[-1]) >= 16) or op[0] in ("fx", "sweep", "sdec", "senc", "serve", "cli", "cliswitch", "lsn", "tls", "tlsq", "tlsrude", "ctcp")
             if nt:
-                distinct.add(h.digest() if op[0] not in ("dec", "decat", "decq", "deca", "decg", "fx", "sweep", "sdec", "senc", "serve", "cli", "lsn", "tls", "tlsq", "ctcp") else core.sha(l))
+                distinct.add(h.digest() if op[0] not in ("dec", "decat", "decq", "deca", "decg", "fx", "sweep", "sdec", "senc", "serve", "cli", "cliswitch", "lsn", "tls", "tlsq", "tlsrude", "ctcp") else core.sha(l))
             if len(samples) < 6 and (evaluations % 997 == 1):
                 samples.append({"line": l[:300], "implementation": a[:300], "model": (model[i] or "")[:400]})
         for f in fs:
